@@ -196,6 +196,11 @@ def f01a (cfg : Cfg) (h : History) : Bool :=
   regular h && monotone h && sequential h && !exactFrom cfg fullAdmitted SSt.init h
     && exactFrom cfg fullCharged SSt.init h
 
+/-- The observable history of a run of the model: every call paired with the model's answer. -/
+def observe (cfg : Cfg) : St → List Op → History
+  | _, [] => []
+  | st, o :: os => ⟨o, (apiStep cfg st o).2⟩ :: observe cfg (apiStep cfg st o).1 os
+
 /-- Configuration as the loader admits it: windows are whole seconds (≥ 1 s), limits positive,
     a parent precedes its children. -/
 def wellFormed (cfg : Cfg) : Bool :=
